@@ -9,23 +9,57 @@ import SFModel.HeapLemmas
 namespace SF.C01
 open SF SF.Heap
 
+/-- Witness heap for the non-vacuity examples: two buffers; array 0 is frozen on buffer 0 and
+    referenced by container 0; array 1 is a caller-owned writeable array on buffer 1. -/
+def hEx : Heap := ⟨[[1, 2], [3, 4]], [⟨0, false⟩, ⟨1, true⟩], [[0]]⟩
+
 /-- The invariant (and structural well-formedness) is preserved by every legal event. -/
 theorem inv_step (h : Heap) (e : Ev) (hw : h.wf = true) (hi : h.inv = true) (hl : h.legal e = true) :
-    (h.step e).inv = true ∧ (h.step e).wf = true := by
-  sorry
+    (h.step e).inv = true ∧ (h.step e).wf = true :=
+  ⟨Heap.inv_step h e hw hi hl, Heap.wf_step h e hw⟩
+
+/-- non-vacuity: the hypotheses hold on `hEx` for one event of every kind -/
+example : hEx.wf = true ∧ hEx.inv = true ∧
+    ([Ev.alloc [7], .view 1, .copy 0, .freeze 1, .filter 1, .construct [0], .write 1 0 9].all
+      fun e => hEx.legal e) = true := by decide
 
 /-- No legal event changes what is observable through an existing container. -/
 theorem snapshot_stable_step (h : Heap) (e : Ev) (hw : h.wf = true) (hi : h.inv = true)
     (hl : h.legal e = true) (c : Nat) (hc : c < h.conts.length) :
-    (h.step e).snapshot c = h.snapshot c := by
-  sorry
+    (h.step e).snapshot c = h.snapshot c :=
+  Heap.snapshot_step h e hw hi hl c hc
+
+/-- non-vacuity: a legal write that really changes a buffer, with container 0 present -/
+example : hEx.wf = true ∧ hEx.inv = true ∧ hEx.legal (.write 1 0 9) = true ∧ 0 < hEx.conts.length ∧
+    (hEx.step (.write 1 0 9)).bufs ≠ hEx.bufs := by decide
 
 /-- ... and so does no history of events (illegal ones are refused): once a container exists, no
     sequence of allocations, views, copies, freezes, constructions and WRITES by anyone changes it. -/
 theorem snapshot_stable (h : Heap) (es : List Ev) (hw : h.wf = true) (hi : h.inv = true)
     (c : Nat) (hc : c < h.conts.length) :
     (h.run es).snapshot c = h.snapshot c ∧ (h.run es).inv = true := by
-  sorry
+  -- strengthen with `wf`, which the step theorems need, then induct over the history
+  suffices H : (h.run es).snapshot c = h.snapshot c ∧ (h.run es).inv = true ∧ (h.run es).wf = true from
+    ⟨H.1, H.2.1⟩
+  induction es generalizing h with
+  | nil => exact ⟨rfl, hi, hw⟩
+  | cons e es ih =>
+    rw [run_cons]
+    by_cases hl : h.legal e = true
+    · simp only [hl, if_true]
+      obtain ⟨hi', hw'⟩ := inv_step h e hw hi hl
+      have hc' : c < (h.step e).conts.length := Nat.lt_of_lt_of_le hc (conts_length_step h e)
+      obtain ⟨h1, h2, h3⟩ := ih (h.step e) hw' hi' hc'
+      exact ⟨h1.trans (snapshot_stable_step h e hw hi hl c hc), h2, h3⟩
+    · simp only [hl]
+      exact ih h hw hi hc
+
+/-- non-vacuity: a history with a refused write (through the frozen array 0), effective writes
+    through array 1 and a view of it, a filter and a construction; the heap does change -/
+example : hEx.wf = true ∧ hEx.inv = true ∧ 0 < hEx.conts.length ∧
+    (hEx.run [.write 0 0 5, .write 1 1 6, .view 1, .write 2 0 8, .filter 1, .construct [3]]) =
+      ⟨[[1, 2], [8, 6], [8, 6]], [⟨0, false⟩, ⟨1, true⟩, ⟨1, true⟩, ⟨2, false⟩], [[0], [3]]⟩ := by
+  decide
 
 /-- `immutable_filter` on a writeable input hands back a fresh, frozen, un-aliased array with the
     same content: later writes by the caller through the input are never visible. -/
@@ -33,25 +67,66 @@ theorem filter_isolates (h : Heap) (a : Nat) (x : Arr) (hw : h.wf = true) (hx : 
     (hwr : x.writeable = true) :
     (h.step (.filter a)).isolated (h.filterResult a) = true ∧
     (h.step (.filter a)).bufs.getD ((h.step (.filter a)).arrs.getD (h.filterResult a) default).buf [] = h.bufs.getD x.buf [] := by
-  sorry
+  rw [wf_iff] at hw
+  refine ⟨?_, ?_⟩
+  · rw [isolated_iff]
+    refine ⟨⟨h.bufs.length, false⟩, ?_, rfl, ?_⟩
+    · simp [step, filterResult, hx, hwr]
+    · intro y hy hyb
+      simp [step, hx, hwr] at hy
+      rcases hy with hy | hy
+      · have := hw y hy
+        simp at hyb; omega
+      · subst hy; rfl
+  · simp [step, filterResult, hx, hwr]
+
+/-- non-vacuity -/
+example : hEx.wf = true ∧ hEx.arrs[1]? = some ⟨1, true⟩ ∧ (⟨1, true⟩ : Arr).writeable = true ∧
+    hEx.filterResult 1 = 2 := by decide
 
 /-- a read-only input is used as it is (the caller-side alias the property's statement permits) -/
 theorem filter_keeps_frozen (h : Heap) (a : Nat) (x : Arr) (hx : h.arrs[a]? = some x)
     (hwr : x.writeable = false) : h.step (.filter a) = h ∧ h.filterResult a = a := by
-  sorry
+  simp [step, filterResult, hx, hwr]
+
+/-- non-vacuity -/
+example : hEx.arrs[0]? = some ⟨0, false⟩ ∧ (⟨0, false⟩ : Arr).writeable = false := by decide
 
 /-- copy then freeze (pickle / deepcopy / every freeze site after an allocation): the new array is
     isolated and holds the same content. -/
 theorem copy_freeze_isolated (h : Heap) (a : Nat) (x : Arr) (hw : h.wf = true) (hx : h.arrs[a]? = some x) :
     let h2 := (h.step (.copy a)).step (.freeze h.arrs.length)
     h2.isolated h.arrs.length = true ∧ h2.bufs.getD h.bufs.length [] = h.bufs.getD x.buf [] := by
-  sorry
+  rw [wf_iff] at hw
+  have hstep : (h.step (.copy a)).step (.freeze h.arrs.length) =
+      { h with bufs := h.bufs ++ [h.bufs.getD x.buf []],
+               arrs := h.arrs ++ [⟨h.bufs.length, false⟩] } := by
+    simp [step, hx]
+  simp only [hstep]
+  refine ⟨?_, ?_⟩
+  · rw [isolated_iff]
+    refine ⟨⟨h.bufs.length, false⟩, ?_, rfl, ?_⟩
+    · simp
+    · intro y hy hyb
+      simp at hy
+      rcases hy with hy | hy
+      · have := hw y hy
+        simp at hyb; omega
+      · subst hy; rfl
+  · simp
+
+/-- non-vacuity (copying the caller's writeable array 1) -/
+example : hEx.wf = true ∧ hEx.arrs[1]? = some ⟨1, true⟩ := by decide
 
 /-- a container may be constructed from filtered inputs: constructing from `filter` results of
     writeable inputs is always legal -/
 theorem construct_after_filter_legal (h : Heap) (a : Nat) (x : Arr) (hw : h.wf = true)
     (hx : h.arrs[a]? = some x) (hwr : x.writeable = true) :
     (h.step (.filter a)).legal (.construct [h.filterResult a]) = true := by
-  sorry
+  simp [legal, (filter_isolates h a x hw hx hwr).1]
+
+/-- non-vacuity -/
+example : hEx.wf = true ∧ hEx.arrs[1]? = some ⟨1, true⟩ ∧ (⟨1, true⟩ : Arr).writeable = true := by
+  decide
 
 end SF.C01
